@@ -264,7 +264,7 @@ func (h *c10mH) apply(label string) bool {
 			}
 		}
 	}
-	staleAtStart := k.extDirty || k.mapViewStale
+	staleAtStart := k.extDirty || (k.mapViewStale && k.instanceReads > 0)
 	readsAtStart := k.reads
 	recreatesAtStart := k.recreates
 	k.injRunFired, k.injAfterCommit, k.natRunFailed, k.injListRulesFired, k.injListFired, k.raceFired, k.runsOK = 0, 0, 0, 0, 0, 0, 0
@@ -313,6 +313,9 @@ func (h *c10mH) apply(label string) bool {
 	}
 	h.check(when)
 	h.classes["verified-apply"] = true
+	if k.natRunFailed > 0 {
+		h.classes["verified-apply-after-own-transaction-was-refused"] = true
+	}
 	if k.recreates > recreatesAtStart {
 		h.classes["verified-apply-after-table-rebuild"] = true
 		if k.injListFired > 0 && h.dispatchOn && len(h.eps) > 0 {
@@ -373,7 +376,7 @@ func TestVerifC10NftMapsSync(t *testing.T) {
 	defer func() { _ = os.Setenv("PATH", oldPath) }()
 
 	rec := ev.New("C10", "nftmaps",
-		"rapid state machine: the real nftables Table (filter TableLayer) + Maps on the knftables.Fake based kernel of C15's nftables unit; the set of workload interfaces (7 names incl. names that are prefixes of others, a 15-character name and a second prefix) changes over time and is handed over like endpointManager does (endpoint chains, rules.DispatchMappings -> AddOrReplaceMap, rules.WorkloadDispatchChains); ops: change endpoints, re-render an endpoint's chains, Apply, clock advance, InvalidateDataplaneCache, forced resync+Apply, restart (same or changed endpoints), dispatch teardown/setup (RemoveMap), edits by another program (delete/add/re-point map elements, flush a map, delete a map together with its users, delete an endpoint chain with its elements, delete the whole table; between ops or racing before Felix's write), injected transaction and list failures, brownouts (n transactions in a row fail and, while they do, the map-element listings of the resyncs in between fail too; n>=6 makes Felix rebuild its table). Non-trivial = a verified Apply with >=1 endpoint that follows >=1 fault or foreign edit; distinct = op sequence",
+		"rapid state machine: the real nftables Table (filter TableLayer) + Maps on the knftables.Fake based kernel of C15's nftables unit; the set of workload interfaces (7 names incl. names that are prefixes of others, a 15-character name and a second prefix) changes over time and is handed over like endpointManager does (endpoint chains, rules.DispatchMappings -> AddOrReplaceMap, rules.WorkloadDispatchChains); ops: change endpoints, re-render an endpoint's chains, Apply, clock advance, InvalidateDataplaneCache, forced resync+Apply, restart (same or changed endpoints), dispatch teardown/setup (RemoveMap), edits by another program (delete/add/re-point map elements, flush a map, delete a map together with its users, delete an endpoint chain with its elements, delete the whole table; between ops or racing before Felix's write), injected transaction and list failures, workload removals applied through a resync in which one or two map-element listings fail on their own, brownouts (n transactions in a row fail and, while they do, the map-element listings of the resyncs in between fail too; n>=6 makes Felix rebuild its table). Non-trivial = a verified Apply with >=1 endpoint that follows >=1 fault or foreign edit; distinct = op sequence",
 		"the C15 open finding (a write from a view known to be unreliable after a failed ListAll) is kept out of this unit: no ListAll failure while a Table has not read the kernel yet, nor together with a killed-after-commit transaction",
 		"kernel model as in C15's nftables unit (knftables.Fake + post-commit in-use check)")
 	defer rec.Write()
@@ -521,6 +524,48 @@ func TestVerifC10NftMapsSync(t *testing.T) {
 				}
 				h.classes["fault-run-"+kind] = true
 				h.ops = append(h.ops, "f")
+			},
+			"removeDuringFlakyResync": func(t *rapid.T) {
+				// Workloads go away while a resync is due and exactly one (uncorrelated) listing of
+				// a map's elements fails during it; everything else works.
+				var present []string
+				for _, n := range c15nSortedKeys(h.eps) {
+					present = append(present, n)
+				}
+				if len(present) == 0 || !h.dispatchOn {
+					t.Skip("no workloads")
+				}
+				k.runFaults, k.beforeRun, k.brownout = nil, nil, false
+				k.listAllFaults, k.listRulesFaults, k.listElemFaults = 0, 0, 0
+				if !h.apply("A") || k.extDirty || k.mapViewStale {
+					return
+				}
+				nrm := rapid.IntRange(1, len(present)).Draw(t, "removed")
+				for _, n := range present[:nrm] {
+					delete(h.eps, n)
+				}
+				if rapid.Bool().Draw(t, "alsoAdd") {
+					for _, n := range c10mIfacePool {
+						if _, ok := h.eps[n]; !ok && n != present[0] {
+							h.eps[n] = 0
+							break
+						}
+					}
+				}
+				h.sync()
+				h.root.InvalidateDataplaneCache("verif")
+				k.listElemFaults = rapid.IntRange(1, 2).Draw(t, "failedListings")
+				h.sinceFault++
+				h.ops = append(h.ops, "R")
+				if h.apply("A") && !k.extDirty && !k.mapViewStale {
+					h.classes["removal-applied-through-resync-with-failed-listing"] = true
+					if k.natRunFailed > 0 {
+						// Not a violation of the dispatch property (the retry healed it), but worth
+						// seeing in the evidence: nothing but one listing failed, yet the kernel
+						// refused a transaction of Felix's.
+						h.classes["flaky-resync-removal-needed-kernel-refusal-and-retry"] = true
+					}
+				}
 			},
 			"injectBrownout": func(t *rapid.T) {
 				// A period of nft trouble: the next n transactions fail and, while they do, so do
